@@ -238,6 +238,8 @@ def run_cbmc_group(g, keep=False):
         cmd += ['--z3']
     elif backend == 'cvc5':
         cmd += ['--cvc5']
+    elif backend == 'cadical':
+        cmd += ['--sat-solver', 'cadical']
     elif backend == 'kissat':
         cmd += ['--external-sat-solver', 'kissat']
     cmd += g.extra_cbmc
